@@ -144,7 +144,7 @@ def run(m, chk):
     chk.floor("FILTER", "returns of point_on_curve", len(rets), 1)
     for R_ in rets:
         dom = [n for n in r.stmt_nodes(ctx) if n.id != R_.id and ctx.cfg.dominates(n.id, R_.id)]
-        txt = [seg(n.ast, 300) for n in dom]
+        txt = [seg(n.ast, 300) for n in dom] + [seg(R_.ast, 300)]  # the returned expression itself may do the last step
         has_min = any(("np.min(" in t or " min(" in t or "=min(" in t.replace(" ", "")) for t in txt)
         has_cmp = any(("<" in t and ("minimaldistance" in t or "min" in t)) for t in txt)
         has_sort = any((".sort(" in t or "sorted(" in t) for t in txt)
